@@ -89,6 +89,8 @@ type C14Op struct {
 	Client string      `json:"client,omitempty"`
 	ACL    []string    `json:"acl,omitempty"` // "resource|action|deny"
 	Since  string      `json:"since,omitempty"`
+	// NoRestart: no stop/start after this operation (by default the hub is restarted after every operation)
+	NoRestart bool `json:"norestart,omitempty"`
 }
 
 type C14Case struct {
@@ -102,7 +104,7 @@ func genC14Case(r *rand.Rand) C14Case {
 	v := gen.NewVocab(c.NIDs, 3, 3)
 	tags := map[string]bool{}
 	live := map[string]bool{"da": true, "db": true}
-	names := []string{"da", "db", "dc"}
+	names := []string{"da", "db", "dc", "dd"}
 	jobsLive := map[string]bool{}
 	clients := map[string]bool{}
 	provs := map[string]bool{}
@@ -133,6 +135,16 @@ func genC14Case(r *rand.Rand) C14Case {
 		tags["dsmgmt"], tags["public-namespaces-updated"] = true, true
 	}
 	if r.Intn(4) == 0 {
+		// directed opening: a dataset is created, renamed and its old name created again within one process lifetime;
+		// later the renamed one is deleted
+		c.Ops = append(c.Ops, C14Op{Kind: "create", DS: "dc", NoRestart: true},
+			C14Op{Kind: "batch", DS: "dc", Ents: []model.Ent{gen.Entity(r, v, v.IDs[0])}, NoRestart: true},
+			C14Op{Kind: "rename", DS: "dc", To: "dd", NoRestart: true}, C14Op{Kind: "create", DS: "dc"},
+			C14Op{Kind: "batch", DS: "dd", Ents: []model.Ent{gen.Entity(r, v, v.IDs[1])}}, C14Op{Kind: "delete", DS: "dd"})
+		live["dc"], live["dd"] = true, false
+		tags["dsmgmt"], tags["rename"], tags["several-ops-per-process-lifetime"] = true, true, true
+	}
+	if r.Intn(4) == 0 {
 		// directed opening: a job runs (sync state stored), is deleted and defined again under the same id
 		c.Ops = append(c.Ops, C14Op{Kind: "batch", DS: "da", Ents: []model.Ent{gen.Entity(r, v, v.IDs[0]), gen.Entity(r, v, v.IDs[1])}},
 			C14Op{Kind: "addjob", Job: "job0"}, C14Op{Kind: "runjob", Job: "job0"}, C14Op{Kind: "deljob", Job: "job0"},
@@ -158,13 +170,29 @@ func genC14Case(r *rand.Rand) C14Case {
 			c.Ops = append(c.Ops, C14Op{Kind: "batch", DS: ds, Ents: ents})
 			tags["data"] = true
 		case k < 34:
-			nm := names[r.Intn(3)]
+			nm := names[r.Intn(len(names))]
 			if live[nm] {
 				continue
 			}
 			live[nm] = true
 			c.Ops = append(c.Ops, C14Op{Kind: "create", DS: nm, To: []string{"", "", "pubns", "proxy", "virtual"}[r.Intn(5)]})
 			tags["dsmgmt"] = true
+		case k < 37:
+			// rename (to a free name of the pool)
+			nm := pick(live)
+			var free []string
+			for _, f := range []string{"db", "dc", "dd", "de"} {
+				if !live[f] {
+					free = append(free, f)
+				}
+			}
+			if nm == "" || nm == "da" || len(free) == 0 {
+				continue
+			}
+			to := free[r.Intn(len(free))]
+			live[nm], live[to] = false, true
+			c.Ops = append(c.Ops, C14Op{Kind: "rename", DS: nm, To: to})
+			tags["dsmgmt"], tags["rename"] = true, true
 		case k < 40:
 			nm := pick(live)
 			if nm == "" || nm == "da" {
@@ -235,6 +263,12 @@ func genC14Case(r *rand.Rand) C14Case {
 				c.Ops = append(c.Ops, C14Op{Kind: "addprov", Client: id})
 			}
 			tags["providers"] = true
+		}
+	}
+	for i := range c.Ops {
+		if i+1 < len(c.Ops) && r.Intn(3) == 0 {
+			c.Ops[i].NoRestart = true
+			tags["several-ops-per-process-lifetime"] = true
 		}
 	}
 	for t := range tags {
@@ -336,9 +370,14 @@ func runC14Case(ctx *Ctx, c C14Case) {
 			s.checkAll(SDOp{Kind: "batch", DS: op.DS})
 		case "create", "delete":
 			s.checkAll(SDOp{Kind: op.Kind, DS: op.DS})
+		case "rename":
+			s.checkAll(SDOp{Kind: "rename", DS: op.DS, To: op.To})
 		}
 		if s.abort {
 			return
+		}
+		if op.NoRestart && i+1 < len(c.Ops) {
+			continue
 		}
 		before := c14Snapshot(s, sys)
 		if err := sys.stop(); err != nil {
@@ -417,6 +456,16 @@ func c14Apply(ctx *Ctx, id string, s *sdRun, sys *c14Sys, op C14Op) error {
 			return err
 		}
 		s.m.Create(op.DS)
+	case "rename":
+		if s.m.Live(op.DS) == nil || s.m.Live(op.To) != nil {
+			return nil
+		}
+		if _, err := sys.core.Dsm.UpdateDataset(op.DS, &server.UpdateDatasetConfig{ID: op.To}); err != nil {
+			return err
+		}
+		s.m.Rename(op.DS, op.To)
+		s.rec[op.To] = s.rec[op.DS]
+		delete(s.rec, op.DS)
 	case "delete":
 		if s.m.Live(op.DS) == nil {
 			return nil
